@@ -21,7 +21,20 @@ from lib.vlib import cn, cz, clist, cpair
 
 ID = "C27"
 
-NPRIMS = 31
+PRIM_NAMES = ["char", "short", "int", "long", "long long", "signed char", "unsigned char", "unsigned short",
+              "unsigned int", "unsigned long", "unsigned long long", "float", "double", "long double", "_Bool",
+              "wchar_t", "char16_t", "char32_t", "int8_t", "uint8_t", "int16_t", "uint16_t", "int32_t", "uint32_t",
+              "int64_t", "uint64_t", "intptr_t", "uintptr_t", "ptrdiff_t", "size_t", "ssize_t"]
+NPRIMS = len(PRIM_NAMES)
+
+
+def decayed(d):
+    """array-to-pointer decay of a function argument description: (3, len, (ptr,)) -> ptr"""
+    return d[2][0] if d[0] == 3 else d
+
+
+def func_desc(param, kid_descs):
+    return (4, param, (kid_descs[0],) + tuple(decayed(k) for k in kid_descs[1:]))
 # types that exist for the whole life of the process (created by the backend's module init):
 # void, void *, char, char *, char[], int, FILE.  The model gets them as never-dropped handles.
 PRELUDE = [["new", 900001, 1, 0, []], ["new", 900002, 2, 0, [900001]], ["new", 900003, 0, 0, []],
@@ -55,6 +68,8 @@ class RawGen:
         if kind == 5:
             self.nagg += 1
             desc = ("agg", self.nagg)
+        elif kind == 4:
+            desc = func_desc(param, [self.info[k]["desc"] for k in kids])
         else:
             desc = (kind, param, tuple(self.info[k]["desc"] for k in kids))
         self.ops.append(["new", h, kind, param, list(kids)])
@@ -79,7 +94,7 @@ class RawGen:
                 return self.add(3, length, [rng.choice(ptrs)], length >= 0)
             return self.add(0, rng.choice(self.prims), [], True)
         if k < 0.92:
-            ok_arg = self.live(lambda i: i["kind"] in (0, 2, 4))
+            ok_arg = self.live(lambda i: i["kind"] in (0, 2, 3, 4))      # arrays too: they decay to pointers
             ok_res = self.live(lambda i: i["kind"] in (0, 1, 2, 4))
             if ok_arg and ok_res:
                 nargs = rng.choice([0, 1, 1, 2, 3])
@@ -106,6 +121,34 @@ class RawGen:
         h = h if h is not None else self.rng.choice(live)
         del self.info[h]
         self.ops.append(["drop", h])
+
+    def array_arg_burst(self):
+        """function types built from array-typed arguments in several spellings of the same C type, the array
+        types then dropped (the function type does not keep them alive), arrays of ANOTHER item type with an
+        equally long name created right away (to land on the freed address), function types built from those"""
+        rng = self.rng
+        by_len = {}
+        for i, nm in enumerate(PRIM_NAMES):
+            by_len.setdefault(len(nm), []).append(i)
+        group = rng.choice([g for g in by_len.values() if len(g) >= 2])
+        p1, p2 = rng.sample(group, 2)
+        res = self.add(0, rng.choice(self.prims), [], True)
+        t1 = self.add(0, p1, [], True)
+        ptr1 = self.add(2, 0, [t1], True, extra=True)
+        lens = rng.sample([-1, 0, 3, 5, 7], 3)
+        arrs = [self.add(3, n, [ptr1], n >= 0) for n in lens]
+        ell = rng.choice([0, 0, 1])
+        fs = [self.add(4, ell, [res, a], True) for a in arrs] + [self.add(4, ell, [res, ptr1], True)]
+        for a in arrs:
+            self.drop(a)
+        if rng.random() < 0.5:
+            self.ops.append(["collect"])
+        t2 = self.add(0, p2, [], True)
+        ptr2 = self.add(2, 0, [t2], True, extra=True)
+        arrs2 = [self.add(3, n, [ptr2], n >= 0) for n in lens + rng.sample([-1, 0, 3, 5, 7], 2)]
+        fs2 = [self.add(4, ell, [res, a], True) for a in arrs2] + [self.add(4, ell, [res, ptr2], True)]
+        for h in rng.sample(fs + fs2 + arrs2, rng.randrange(len(fs + fs2 + arrs2))):
+            self.drop(h)
 
     def drop_rebuild(self):
         """drop the LAST reference to a type (no other live handle has or contains its description) while
@@ -168,6 +211,8 @@ def gen_raw(rng, size):
             g.ops.append(["collect"])
         elif k < 0.96:
             g.drop_rebuild()
+        elif k < 0.975:
+            g.array_arg_burst()
         else:
             # drop a whole family: everything, or all but a few, then rebuild from scratch
             live = g.live()
@@ -289,8 +334,13 @@ def predicate_raw(case, out):
             if kind == 5:
                 nagg += 1
                 d = ("agg", nagg)
+            elif kind == 4:
+                d = func_desc(param, [desc[k] for k in kids])
             else:
                 d = (kind, param, tuple(desc[k] for k in kids))
+            if "BADSIG" in o:
+                bad.append(("function type construction #%d returned '%s', whose result/arguments/ellipsis are not "
+                            "the requested ones (arrays decayed to pointers)" % (h, o[-1]), i))
             same = [hh for hh, dd in desc.items() if dd == d]
             if o[0] == "same":
                 if o[1] not in desc or desc[o[1]] != d:
@@ -428,6 +478,10 @@ def evaluate(ctx, cases):
                     if op[2] == 5:
                         nagg += 1
                         d = ("agg", nagg)
+                    elif op[2] == 4:
+                        d = func_desc(op[3], [desc.get(k) or (0, -1, ()) for k in op[4]])
+                        if any((desc.get(k) or (0,))[0] == 3 for k in op[4][1:]):
+                            ctx.hist("function_with_array_args", o[0])
                     else:
                         d = (op[2], op[3], tuple(desc.get(k) for k in op[4]))
                     desc[op[1]] = d
@@ -471,7 +525,10 @@ def run(ctx):
     ctx.cov["rule"] = ("raw level: one process per history of 40..1000 (thorough ..2000) operations on "
                        "_cffi_backend.new_primitive/void/pointer/array/function/struct/union_type over a small pool of "
                        "descriptions (so that collisions are frequent), re-issuing earlier constructions, dropping "
-                       "handles singly and in families (cascading frees, real address reuse), acyclic "
+                       "handles singly and in families (cascading frees, real address reuse), function types built from "
+                       "array-typed arguments (three lengths / open arrays next to the pointer form; arrays dropped, arrays "
+                       "of another item type with an equally long name created on the freed addresses, function types "
+                       "built from those; the returned ctype's result/args/ellipsis compared with the request), acyclic "
                        "complete_struct_or_union, gc.collect(); ffi level: 3-4 cffi.FFI objects incl. out-of-line "
                        "module FFIs, typeof over 34 type strings, derived pointer/array/item types, dropping handles "
                        "and FFI objects, gc.collect(), partition checkpoints every 12 operations. Non-trivial = a "
